@@ -294,12 +294,12 @@ def opIterScript (st : DState) (s : Nat) (kind : String) (script : String) : Str
 def contentsOfObj (env : Env) (o : Obj) : Option (List Bytes) :=
   o.pairs.mapM fun (_, ref) => contentIn env o ref
 
-def kindName : Obj → String
-  | .rodeo _ => "Rodeo"
-  | .threaded _ => "ThreadedRodeo"
-  | .reader _ _ => "RodeoReader"
-  | .resolver _ _ => "RodeoResolver"
-  | .gone => "gone"
+def kindName : Obj → Wrapper
+  | .rodeo _ => .rodeo
+  | .threaded _ => .threaded
+  | .reader _ _ => .reader
+  | .resolver _ _ => .resolver
+  | .gone => .other "gone"
 
 /-- `a == b`, evaluated by the shape the extractor read from the `PartialEq` impl of the pairing. -/
 def opEq (st : DState) (a b : Nat) : String :=
